@@ -12,3 +12,4 @@ open A2l.IL
 #print axioms run_ok
 #print axioms run_from_empty_ok
 #print axioms swapRemoveIdxUnfixed_last_panics
+#print axioms rename_to_same_name
